@@ -1,13 +1,24 @@
 (* Props/C13.v -- Programs assemble exactly when well formed; faults yield the matching error.
-   PARTIAL: proved are (a) success implies well-formedness, (b) for the layout/emission phase
-   the exact equivalence "succeeds iff no undeclared label and every operand in range"
-   (C13_finish_ok_iff), (c) the exact error for each kind of fault.  What is NOT proved is a
-   declarative characterisation of when the READING phase (labels, macro expansion, early
-   operand checks) succeeds: its success is taken as `push_op ... = Ok` rather than derived
-   from a syntactic well-formedness predicate; that part is validated by the differential check. *)
+   FULL EQUIVALENCE (C13_assembles_iff_well_formed): for every syntax tree [ops],
+   `assemble ops` returns bytes  <->  `wf_program ops`, a declarative predicate spelled out in
+   C13_well_formed_means: in every scope (the program and, recursively, every nested scope)
+     - no macro name is declared twice,
+     - every instruction-macro invocation has an expansion (macro declared as an instruction
+       macro, exactly as many arguments as parameters, nesting within the limit, no label
+       defined twice in one body),
+     - in the expanded scope every label is defined exactly once; every label and expression
+       macro an operand mentions (directly, in arguments -- also surplus ones -- or through macro
+       bodies) is defined in the scope, before or after the use; and under the label positions
+       the layout decides, every operand has a value (no division by zero, no parameter read
+       that the invocation did not supply, no variable outside a macro) that fits its push.
+   Otherwise the result is an error value (C13_ill_formed_yields_error), the kind of which is
+   given fault by fault by the theorems below.  The key step is that the check made when an op
+   is READ (evaluation without labels) never disagrees with the final one
+   (C13_evaluation_label_independent). *)
 From Coq Require Import Lia.
 From Verif Require Import Model.Base Model.Ops Model.Expr Model.Asm
-  Proofs.ExprEvalProofs Proofs.AsmLayoutProofs Proofs.AsmRangeProofs Proofs.AsmTotalProofs.
+  Proofs.ExprEvalProofs Proofs.AsmLayoutProofs Proofs.AsmRangeProofs Proofs.AsmTotalProofs
+  Proofs.AsmMacroProofs Proofs.AsmWfProofs.
 Open Scope Z_scope.
 
 (* success => well formed: labels defined at most once, every label an operand mentions is
@@ -94,16 +105,146 @@ Theorem C13_missing_argument : forall labels macros f x,
 Proof. intros. rewrite eval_var. reflexivity. Qed.
 Print Assumptions C13_missing_argument.
 
-(* what is missing for the full equivalence, kept visible *)
-Definition C13_partial_missing : Prop :=
-  forall ops, (* wf ops, a declarative predicate *) True -> exists bytes, assemble ops = Ok bytes.
+(* ---------- EXACTLY WHEN ---------- *)
+(* a program assembles if and only if it is well formed *)
+Theorem C13_assembles_iff_well_formed : forall ops,
+  (exists bytes, assemble ops = Ok bytes) <-> wf_program ops.
+Proof. exact assemble_ok_iff_wf. Qed.
+Print Assumptions C13_assembles_iff_well_formed.
+
+(* otherwise it yields an error value (not a panic), hence no output bytes *)
+Theorem C13_ill_formed_yields_error : forall ops,
+  ~ wf_program ops -> exists er, assemble ops = Err er.
+Proof. exact not_wf_error. Qed.
+Print Assumptions C13_ill_formed_yields_error.
+
+(* what [wf_program] says, in full: [expand_raws] is the textual expansion of the scope's
+   instruction-macro invocations (Proofs/AsmMacroProofs.expand_op, the reference of C10), with
+   every nested scope standing for the bytes it assembles to; [labels_of items] are the labels
+   the expanded scope defines; [elabels] lists the labels an operand mentions, through
+   expression-macro bodies and arguments; [operand_in_range] = the operand evaluates to a value
+   0 <= v < 256^width *)
+Theorem C13_well_formed_means : forall ops,
+  wf_program ops <->
+  ((forall inner, In (RScope inner) ops -> wf_program inner) /\
+   NoDup (macro_names ops) /\
+   exists items c,
+     expand_raws (macro_defs ops) nested_bytes 0 ops = Ok (items, c) /\
+     NoDup (labels_of items) /\
+     Forall (fun it => forall e, item_operand it = Some e ->
+               exists ls, elabels (menv_of (macro_defs ops)) MACRO_DEPTH_LIMIT e = Ok ls /\
+                          incl ls (labels_of items)) items /\
+     exists w pos, layout (macro_defs ops) items = Ok (w, pos) /\
+       Forall (operand_in_range (macro_defs ops) (lenv pos)) (with_widths items w)).
+Proof. intros ops. rewrite wf_program_unfold'. reflexivity. Qed.
+Print Assumptions C13_well_formed_means.
+
+(* when the expansion of a scope exists: every invocation names a macro declared as an
+   INSTRUCTION macro, with exactly as many arguments as parameters, whose body defines no label
+   twice and whose own invocations are expandable with one nesting level less (256 levels) *)
+Theorem C13_expansion_exists_iff : forall macros sub l c,
+  (exists r, expand_raws macros sub c l = Ok r) <->
+  (forall a, In (ROp a) l -> expandable macros EXPANSION_FUEL a).
+Proof. exact expand_raws_ok_iff. Qed.
+Print Assumptions C13_expansion_exists_iff.
+
+Theorem C13_expandable_invocation : forall macros fuel n args,
+  expandable macros fuel (AMacro n args) <->
+  exists f ps body, fuel = S f /\ mlookup macros n = Some (MI ps body) /\
+    length ps = length args /\ NoDup (body_labels body) /\ Forall (expandable macros f) body.
+Proof. exact expandable_macro_iff. Qed.
+Print Assumptions C13_expandable_invocation.
+
+(* the macro table of a scope exists iff no macro name is declared twice in it *)
+Theorem C13_macros_declared_once : forall ops m,
+  declare_macros ops [] = Ok m <-> (NoDup (macro_names ops) /\ m = macro_defs ops).
+Proof. exact declare_macros_ok_iff. Qed.
+Print Assumptions C13_macros_declared_once.
+
+(* one scope without invocations (labels, ops, %push, macro definitions): reading, layout and
+   emission succeed iff the flat list is well formed *)
+Theorem C13_flat_scope_iff : forall macros ops, all_flat ops ->
+  ((exists st bytes, push_flat macros ops ainit = Ok st /\ finish_scope macros st = Ok bytes) <->
+   wf_items macros (flat_map item_of ops)).
+Proof. exact flat_ok_iff. Qed.
+Print Assumptions C13_flat_scope_iff.
+
+(* one scope with invocations, raw bytes and nested scopes, given what the nested scopes
+   assemble to *)
+Theorem C13_scope_iff : forall macros rec sub l,
+  (forall inner, In (RScope inner) l -> rec (RScope inner) = Ok (sub (RScope inner))) ->
+  ((exists st bytes, push_raws macros rec l ainit = Ok st /\ finish_scope macros st = Ok bytes) <->
+   wf_scope macros sub l).
+Proof. exact scope_ok_iff. Qed.
+Print Assumptions C13_scope_iff.
+
+(* evaluation does not depend on the labels until the first label lookup: the check made when
+   an op is read (no labels known) either gives the final verdict or is postponed *)
+Theorem C13_evaluation_label_independent : forall labels menv f vs e,
+  eval labels menv f vs e = eval no_labels menv f vs e \/
+  exists l, eval no_labels menv f vs e = err1 "UnknownLabel" l.
+Proof. exact eval_label_independent. Qed.
+Print Assumptions C13_evaluation_label_independent.
+
+(* Ingest::ingest on a syntax tree: the parser's constant range check, then the above *)
+Theorem C13_ingest_iff : forall ops,
+  (exists bytes, ingest_ast ops = Ok bytes) <-> (parse_check ops = Ok tt /\ wf_program ops).
+Proof. exact ingest_ok_iff_wf. Qed.
+Print Assumptions C13_ingest_iff.
+
+(* ---------- non-vacuity ---------- *)
+(* backward + forward reference in one operand, an instruction macro with a local label and a
+   parameter, an expression macro, a nested scope reusing a label name *)
+Definition C13_good : list rawop :=
+  [ ROp (AMacroDefE "twice" ["x"] (ETimes (EVar "x") (ENum 2)));
+    ROp (AMacroDefI "guard" ["t"]
+           [ALabel "chk"; AOp 0x5b None; AOp 0x61 (Some (EVar "t")); APush (ELabel "chk")]);
+    ROp (ALabel "start"); ROp (AOp 0x5b None);
+    ROp (AOp 0x61 (Some (EPlus (ELabel "start") (ELabel "end"))));
+    ROp (AMacro "guard" [ELabel "end"]);
+    ROp (AOp 0x60 (Some (EMacro "twice" [ENum 21])));
+    RScope [ROp (ALabel "start"); ROp (APush (ELabel "start"))];
+    ROp (AMacro "guard" [EMacro "twice" [ELabel "start"]]);
+    ROp (ALabel "end"); ROp (AOp 0x5b None) ].
+
+Ltac c13_ill H := apply C13_assembles_iff_well_formed in H; destruct H as [b H]; vm_compute in H; discriminate.
 
 Example C13_example :
   assemble [ROp (ALabel "a"); ROp (AOp 0x58 None); ROp (AOp 0x60 (Some (EPlus (ELabel "a") (ELabel "b")))); ROp (ALabel "b")]
     = Ok [0x58; 0x60; 0x03]%N /\
   assemble [ROp (ALabel "a"); ROp (ALabel "a")] = err1 "DuplicateLabel" "a" /\
-  assemble [ROp (AOp 0x60 (Some (EDivide (ENum 1) (ENum 0))))] = err0 "DivisionByZero".
-Proof. repeat split; vm_compute; reflexivity. Qed.
+  assemble [ROp (AOp 0x60 (Some (EDivide (ENum 1) (ENum 0))))] = err0 "DivisionByZero" /\
+  (* a well-formed program *)
+  wf_program C13_good /\
+  assemble C13_good = Ok [0x5b; 0x61; 0x00; 0x14; 0x5b; 0x61; 0x00; 0x14; 0x60; 0x04; 0x60; 0x2a;
+                          0x60; 0x00; 0x5b; 0x61; 0x00; 0x00; 0x60; 0x0e; 0x5b]%N /\
+  (* ill-formed ones: a label defined twice; a label used only inside an expression-macro body
+     and defined nowhere; a label in a SURPLUS argument defined nowhere; an invocation with too
+     few arguments; `push1 lbl + 1/0` (all labels defined, fails only at layout time) and
+     `push1 1/0 + lbl` (fails when read); a variable outside a macro; an instruction macro
+     used as an expression macro; a parent's label used in a nested scope *)
+  ~ wf_program [ROp (ALabel "a"); ROp (ALabel "a")] /\
+  ~ wf_program [ROp (AMacroDefE "f" [] (ELabel "lbl")); ROp (AOp 0x60 (Some (EMacro "f" [])))] /\
+  ~ wf_program [ROp (AMacroDefE "g" ["x"] (EVar "x")); ROp (AOp 0x60 (Some (EMacro "g" [ENum 1; ELabel "nowhere"])))] /\
+  ~ wf_program [ROp (AMacroDefI "m" ["p"] [AOp 0x58 None]); ROp (AMacro "m" [])] /\
+  ~ wf_program [ROp (AOp 0x60 (Some (EPlus (ELabel "lbl") (EDivide (ENum 1) (ENum 0))))); ROp (ALabel "lbl")] /\
+  ~ wf_program [ROp (AOp 0x60 (Some (EPlus (EDivide (ENum 1) (ENum 0)) (ELabel "lbl")))); ROp (ALabel "lbl")] /\
+  ~ wf_program [ROp (AOp 0x60 (Some (EVar "x")))] /\
+  ~ wf_program [ROp (AMacroDefI "m" [] [AOp 0x58 None]); ROp (AOp 0x60 (Some (EMacro "m" [])))] /\
+  ~ wf_program [ROp (ALabel "lbl"); RScope [ROp (APush (ELabel "lbl"))]] /\
+  (* accepted, as the code does: an expression macro invoked with FEWER arguments than
+     parameters whose body does not read the missing parameter; a surplus argument that would
+     divide by zero (it is never evaluated) *)
+  assemble [ROp (AMacroDefE "h" ["x"] (ENum 5)); ROp (AOp 0x60 (Some (EMacro "h" [])))] = Ok [0x60; 0x05]%N /\
+  assemble [ROp (AMacroDefE "g" ["x"] (EVar "x")); ROp (AOp 0x60 (Some (EMacro "g" [ENum 1; EDivide (ENum 1) (ENum 0)])))]
+    = Ok [0x60; 0x01]%N.
+Proof.
+  split; [vm_compute; reflexivity|]. split; [vm_compute; reflexivity|]. split; [vm_compute; reflexivity|].
+  split; [apply C13_assembles_iff_well_formed; eexists; vm_compute; reflexivity|].
+  split; [vm_compute; reflexivity|].
+  repeat (split; [intros H; c13_ill H|]).
+  split; vm_compute; reflexivity.
+Qed.
 
 Check C13_success_implies_well_formed_partial : forall ops bytes,
   assemble ops = Ok bytes ->
@@ -135,3 +276,40 @@ Check C13_finish_ok_iff : forall macros st,
   (a_undeclared st = [] /\
    exists w pos, layout macros (a_ready st) = Ok (w, pos) /\
      Forall (operand_in_range macros (lenv pos)) (with_widths (a_ready st) w)).
+Check C13_assembles_iff_well_formed : forall ops,
+  (exists bytes, assemble ops = Ok bytes) <-> wf_program ops.
+Check C13_ill_formed_yields_error : forall ops,
+  ~ wf_program ops -> exists er, assemble ops = Err er.
+Check C13_well_formed_means : forall ops,
+  wf_program ops <->
+  ((forall inner, In (RScope inner) ops -> wf_program inner) /\
+   NoDup (macro_names ops) /\
+   exists items c,
+     expand_raws (macro_defs ops) nested_bytes 0 ops = Ok (items, c) /\
+     NoDup (labels_of items) /\
+     Forall (fun it => forall e, item_operand it = Some e ->
+               exists ls, elabels (menv_of (macro_defs ops)) MACRO_DEPTH_LIMIT e = Ok ls /\
+                          incl ls (labels_of items)) items /\
+     exists w pos, layout (macro_defs ops) items = Ok (w, pos) /\
+       Forall (operand_in_range (macro_defs ops) (lenv pos)) (with_widths items w)).
+Check C13_macros_declared_once : forall ops m,
+  declare_macros ops [] = Ok m <-> (NoDup (macro_names ops) /\ m = macro_defs ops).
+Check C13_flat_scope_iff : forall macros ops, all_flat ops ->
+  ((exists st bytes, push_flat macros ops ainit = Ok st /\ finish_scope macros st = Ok bytes) <->
+   wf_items macros (flat_map item_of ops)).
+Check C13_scope_iff : forall macros rec sub l,
+  (forall inner, In (RScope inner) l -> rec (RScope inner) = Ok (sub (RScope inner))) ->
+  ((exists st bytes, push_raws macros rec l ainit = Ok st /\ finish_scope macros st = Ok bytes) <->
+   wf_scope macros sub l).
+Check C13_evaluation_label_independent : forall labels menv f vs e,
+  eval labels menv f vs e = eval no_labels menv f vs e \/
+  exists l, eval no_labels menv f vs e = err1 "UnknownLabel" l.
+Check C13_ingest_iff : forall ops,
+  (exists bytes, ingest_ast ops = Ok bytes) <-> (parse_check ops = Ok tt /\ wf_program ops).
+Check C13_expansion_exists_iff : forall macros sub l c,
+  (exists r, expand_raws macros sub c l = Ok r) <->
+  (forall a, In (ROp a) l -> expandable macros EXPANSION_FUEL a).
+Check C13_expandable_invocation : forall macros fuel n args,
+  expandable macros fuel (AMacro n args) <->
+  exists f ps body, fuel = S f /\ mlookup macros n = Some (MI ps body) /\
+    length ps = length args /\ NoDup (body_labels body) /\ Forall (expandable macros f) body.
